@@ -27,4 +27,39 @@ theorem transformH_up1 (y0 y1 w0 s skT skB H kd : Int)
   refine ⟨by omega, by omega, ?_, trivial, by omega⟩
   split <;> omega
 
+/-- `needed_total_padding` is TensorFlow Lite's total SAME padding `max((out-1)*s + k_dil - H, 0)` -/
+theorem neededTotalPadding_eq_sameTotal (H s kd : Int) (hs : 1 ≤ s) :
+    neededTotalPadding H s kd = sameTotal H s kd := by
+  unfold neededTotalPadding sameTotal sameOut
+  have hdm := Int.mul_ediv_add_emod H s
+  have hm0 := Int.emod_nonneg H (by omega : s ≠ 0)
+  have hm1 := Int.emod_lt_of_pos H (by omega : 0 < s)
+  by_cases hz : H % s = 0
+  · rw [if_pos hz]
+    have e : (H + s - 1) / s = H / s := by
+      have : H + s - 1 = (s - 1) + s * (H / s) := by omega
+      rw [this, Int.add_mul_ediv_left _ _ (by omega : s ≠ 0), Int.ediv_eq_zero_of_lt (by omega) (by omega)]
+      omega
+    rw [e]
+    have e2 : (H / s - 1) * s = s * (H / s) - s := by ring
+    rw [e2]
+    omega
+  · rw [if_neg hz]
+    have e : (H + s - 1) / s = H / s + 1 := by
+      have : H + s - 1 = (H % s - 1) + s * (H / s + 1) := by
+        have : s * (H / s + 1) = s * (H / s) + s := by ring
+        omega
+      rw [this, Int.add_mul_ediv_left _ _ (by omega : s ≠ 0), Int.ediv_eq_zero_of_lt (by omega) (by omega)]
+      omega
+    rw [e]
+    have e2 : (H / s + 1 - 1) * s = s * (H / s) := by ring
+    rw [e2]
+    omega
+
+/-- `needed_total_padding ≥ k_dil - stride`: the skirt hypothesis of the receptive-field theorems -/
+theorem neededTotalPadding_ge (H s kd : Int) (hs : 1 ≤ s) : kd - s ≤ neededTotalPadding H s kd := by
+  unfold neededTotalPadding
+  have hm1 := Int.emod_lt_of_pos H (by omega : 0 < s)
+  split <;> omega
+
 end VelaVerif.Box
